@@ -170,6 +170,80 @@ class C16Evolving1D(Harness):
 
 
 @register
+class C16Evolving2D(Harness):
+    prop = "C16"
+    group = "evolving2d"
+    bounds_doc = "2D histograms whose geometry (bin_sizes, densities, total_size, widths) is read, then changed in place - an adaptive 1x1 histogram (width 1) grown by fill / fill_n of one symbolic point in [-2, 3)^2, or a static 2x2 histogram with symbolic edges merged along one axis - and read again: the second reading describes the new bins"
+
+    def instances(self, tier):
+        for way in ("fill", "fill_n"):
+            yield f"ev2d-grow-{way}", dict(mode="grow", way=way)
+        for ax in (0, 1):
+            yield f"ev2d-merge-ax{ax}", dict(mode="merge", axis=ax)
+
+    def declare(self, cx, p):
+        if p["mode"] == "grow":
+            x = {"v": [cx.pyfloat("v0"), cx.pyfloat("v1")]}
+            if cx.sym:
+                cx.assume(*[z3.And(cx.t(v) >= -2, cx.t(v) < 3) for v in x["v"]])
+            return x
+        x = {"e": [declare_edges(cx, f"e{k}_", 2) for k in range(2)], "f": declare_cells(cx, "f", [2, 2], "real")}
+        return x
+
+    @staticmethod
+    def _geom(h):
+        return {"sizes": _tolist(h.bin_sizes), "dens": _tolist(h.densities), "total_size": h.total_size, "freq": _tolist(h.frequencies),
+                "widths": [_tolist(h.get_bin_widths(a)) for a in range(2)], "bins": [_tolist(b) for b in h.bins], "shape": list(h.shape)}
+
+    def drive(self, E, p, x):
+        np = E.np
+        nd = E.mod("physt.histogram_nd")
+        if p["mode"] == "grow":
+            FWB = E.mod("physt.binnings").FixedWidthBinning
+            h = nd.Histogram2D([FWB(bin_width=1.0, bin_count=1, bin_times_min=0, adaptive=True) for _ in range(2)], np.asarray([[1.0]]))
+            first = self._geom(h)
+            r = E.attempt(h.fill, list(x["v"])) if p["way"] == "fill" else E.attempt(h.fill_n, np.asarray([x["v"]], dtype=float))
+        else:
+            h = nd.Histogram2D([np.asarray(e) for e in x["e"]], np.asarray(nested(x["f"], [2, 2]), dtype=float))
+            first = self._geom(h)
+            r = E.attempt(h.merge_bins, 2, axis=p["axis"], inplace=True)
+        if isinstance(r, Raised):
+            return {"first": first, "op_raised": r}
+        second = E.attempt(self._geom, h)
+        return {"first": first, "second": {"raised": second} if isinstance(second, Raised) else second}
+
+    def oracle(self, cx, p, x, obs):
+        yield "no_exception", obs.get("raised") is None and obs.get("op_raised") is None
+        if obs.get("raised") is not None or obs.get("op_raised") is not None:
+            return
+        g = obs["second"]
+        yield "geometry_readable_after_change", "raised" not in g
+        if "raised" in g:
+            return
+        shape = g["shape"]
+        yield "shapes_agree", _dims2(g["sizes"]) == shape == _dims2(g["dens"]) == _dims2(g["freq"]) and [len(b) for b in g["bins"]] == shape
+        if not (_dims2(g["sizes"]) == shape == _dims2(g["dens"]) == _dims2(g["freq"])):
+            return
+        tot = z3.RealVal(0)
+        for i in range(shape[0]):
+            for j in range(shape[1]):
+                size = (cx.t(g["bins"][0][i][1]) - cx.t(g["bins"][0][i][0])) * (cx.t(g["bins"][1][j][1]) - cx.t(g["bins"][1][j][0]))
+                tot = tot + size
+                yield f"bin_size[{i},{j}]", z3.And(cx.eq(g["sizes"][i][j], size), cx.eq(g["widths"][0][i], cx.t(g["bins"][0][i][1]) - cx.t(g["bins"][0][i][0])))
+                yield f"density[{i},{j}]", cx.quot_eq(g["dens"][i][j], cx.t(g["freq"][i][j]), g["sizes"][i][j])
+        yield "total_size", cx.eq(g["total_size"], tot)
+        if p["mode"] == "merge":
+            e = [[cx.t(t) for t in ax] for ax in x["e"]]
+            a = p["axis"]
+            yield "merged_shape", shape == ([1, 2] if a == 0 else [2, 1])
+            yield "merged_total_size", cx.eq(g["total_size"], (e[0][2] - e[0][0]) * (e[1][2] - e[1][0]))
+
+
+def _dims2(a):
+    return [len(a), len(a[0]) if a and isinstance(a[0], list) else 0] if isinstance(a, list) else None
+
+
+@register
 class C16GeometryND(Harness):
     prop = "C16"
     group = "geomnd"
@@ -211,7 +285,7 @@ class C16GeometryND(Harness):
         obs = {"sizes": _tolist(h.bin_sizes), "dens": _tolist(h.densities), "total_size": h.total_size, "total": h.total,
                "left": [_tolist(h.get_bin_left_edges(k)) for k in range(D)], "right": [_tolist(h.get_bin_right_edges(k)) for k in range(D)],
                "centers": [_tolist(h.get_bin_centers(k)) for k in range(D)], "widths": [_tolist(h.get_bin_widths(k)) for k in range(D)],
-               "edges": [_tolist(h.get_bin_edges(k)) for k in range(D)],
+               "edges": [_tolist(h.get_bin_edges(k)) for k in range(D)], "mesh_edges": [_tolist(a) for a in h.get_bin_edges()],
                "mesh_left": [_tolist(a) for a in h.get_bin_left_edges()], "mesh_right": [_tolist(a) for a in h.get_bin_right_edges()],
                "mesh_centers": [_tolist(a) for a in h.get_bin_centers()], "mesh_widths": [_tolist(a) for a in h.get_bin_widths()]}
         return obs
@@ -258,6 +332,9 @@ class C16GeometryND(Harness):
             yield f"mesh[{tag}]", z3.And([z3.And(cx.eq(getcell(obs["mesh_left"][k], idx), e[k][idx[k]]), cx.eq(getcell(obs["mesh_right"][k], idx), e[k][idx[k] + 1]),
                                                   cx.eq(getcell(obs["mesh_widths"][k], idx), e[k][idx[k] + 1] - e[k][idx[k]]),
                                                   cx.eq(getcell(obs["mesh_centers"][k], idx), (e[k][idx[k]] + e[k][idx[k] + 1]) / 2)) for k in range(D)])
+        # the mesh form of the edges: D full grids of shape (n0+1, n1+1, ...), grid k holding axis k's edge at every node
+        for idx in product_indices([n + 1 for n in shape]):
+            yield f"mesh_edges[{','.join(map(str, idx))}]", z3.And([cx.eq(getcell(obs["mesh_edges"][k], idx), e[k][idx[k]]) for k in range(D)])
         tot = z3.RealVal(1)
         for k in range(D):
             tot = tot * (e[k][-1] - e[k][0])
